@@ -11,6 +11,9 @@ structure MatchResult where
 
 abbrev Rng := Int × Int × Int      -- start, end, delimiter
 
+/-- end of a declaration: one past its terminating delimiter, or the value end when it has none (`delimiter = -1`) -/
+def propEnd (ev : Ev) : Int := if ev.delimiter != -1 then ev.delimiter + 1 else ev.stop
+
 /-- `match(source, pos)` -/
 def matchLoop (pos : Int) : List Ev → List Rng → Option Rng → Option MatchResult
   | [], _, _ => none
@@ -27,7 +30,7 @@ def matchLoop (pos : Int) : List Ev → List Rng → Option Rng → Option Match
     | .propertyValue =>
       match pending with
       | some p =>
-        if p.1 < pos && pos < ev.stop then some ⟨"property", p.1, ev.delimiter + 1, ev.start, ev.stop⟩
+        if p.1 < pos && pos < propEnd ev then some ⟨"property", p.1, propEnd ev, ev.start, ev.stop⟩
         else matchLoop pos evs stack none
       | none => matchLoop pos evs stack none
 
@@ -45,12 +48,25 @@ def innerRange (src : Array Ch) (start stop : Int) : Option (Int × Int) :=
     | 0 => e
     | f+1 => if e != 0 && e > s && isSpace (srcAt src (e - 1)) then bwd f (e - 1) else e
   let e := bwd (src.size + 1) stop
-  if s != e then some (s, e) else none
+  if s < e then some (s, e) else none
 
 def pushR (rs : List (Int × Int)) (r : Int × Int) : List (Int × Int) :=   -- rs is reversed (last first)
   match rs with
   | prev :: _ => if (prev.1 != r.1 || prev.2 != r.2) && r.1 != r.2 then r :: rs else rs
   | [] => if r.1 != r.2 then r :: rs else rs
+
+/-- what closing a rule contributes to `balanced_outward`: trimmed content range, then full range -/
+def ruleRanges (src : Array Ch) (pos : Int) (sel close : Ev) (acc : List (Int × Int)) : List (Int × Int) :=
+  if sel.start < pos && pos < close.stop then
+    let a1 := match innerRange src (sel.delimiter + 1) close.start with | some i => pushR acc i | none => acc
+    pushR a1 (sel.start, close.stop)
+  else acc
+/-- what a declaration contributes: value range, then full range -/
+def declRanges (pos : Int) (name value : Ev) (acc : List (Int × Int)) : List (Int × Int) :=
+  if name.start < pos && pos < propEnd value then
+    pushR (pushR acc (value.start, value.stop)) (name.start, propEnd value)
+  else acc
+def evOf (r : Rng) : Ev := ⟨.selector, r.1, r.2.1, r.2.2⟩
 
 /-- `balanced_outward` -/
 def outwardLoop (src : Array Ch) (pos : Int) : List Ev → List Rng → Option Rng → List (Int × Int) → List (Int × Int)
@@ -61,40 +77,37 @@ def outwardLoop (src : Array Ch) (pos : Int) : List Ev → List Rng → Option R
     | .blockEnd =>
       match stack with
       | left :: rest =>
-        let acc' := if left.1 < pos && pos < ev.stop then
-            let a1 := match innerRange src (left.2.2 + 1) ev.start with | some i => pushR acc i | none => acc
-            pushR a1 (left.1, ev.stop)
-          else acc
-        if rest.isEmpty then acc'.reverse else outwardLoop src pos evs rest none acc'
-      | [] => acc.reverse                                   -- `if not stack: return False`
+        let acc' := ruleRanges src pos (evOf left) ev acc
+        if rest.isEmpty && !acc'.isEmpty then acc'.reverse else outwardLoop src pos evs rest none acc'
+      | [] => if !acc.isEmpty then acc.reverse else outwardLoop src pos evs [] none acc   -- `if not stack and result: return False`
     | .propertyName => outwardLoop src pos evs stack (some (ev.start, ev.stop, ev.delimiter)) acc
     | .propertyValue =>
       let acc' := match prop with
-        | some p =>
-          if p.1 < pos && pos < max ev.delimiter ev.stop then
-            pushR (pushR acc (ev.start, ev.stop)) (p.1, if ev.delimiter != -1 then ev.delimiter + 1 else ev.stop)
-          else acc
+        | some p => declRanges pos (evOf p) ev acc
         | none => acc
       outwardLoop src pos evs stack none acc'
 
-/-- inward ranges with first child (alias-free) -/
-inductive IR | mk (start stop delimiter : Int) (first : Option IR)
-def IR.start : IR → Int | .mk s _ _ _ => s
-def IR.first : IR → Option IR | .mk _ _ _ f => f
-def IR.setFirstIfNone (r : IR) (c : IR) : IR := match r with | .mk s e d none => .mk s e d (some c) | o => o
-def IR.withEnd (r : IR) (e : Int) : IR := match r with | .mk s _ d f => .mk s e d f
-def IR.updFirstEnd (r : IR) (pstart : Int) (e : Int) : IR :=
-  match r with
-  | .mk s e0 d (some (.mk cs ce cd cf)) => if cs == pstart then .mk s e0 d (some (.mk cs e cd cf)) else .mk s e0 d (some (.mk cs ce cd cf))
-  | o => o
+/-- inward range: a selector / property range together with the chain of its first children (first child, that one's
+    first child, …). The Python keeps pooled objects linked through `first_child`; the alias-free model keeps the chain
+    as a plain list, so reading it needs no fuel. -/
+abbrev IRng := Int × Int × Int          -- start, end, delimiter
+structure IR where
+  start : Int
+  stop : Int
+  delimiter : Int
+  chain : List IRng := []
 
-def chainI (src : Array Ch) : Nat → Option IR → List (Int × Int) → List (Int × Int)
-  | 0, _, acc => acc
-  | _, none, acc => acc
-  | fuel+1, some (.mk s e d f), acc =>
-    let a1 := pushR acc (s, e)
-    let a2 := match innerRange src (d + 1) (e - 1) with | some i => pushR a1 i | none => a1
-    chainI src fuel f a2
+def IR.setFirstIfNone (r c : IR) : IR := match r.chain with | [] => { r with chain := (c.start, c.stop, c.delimiter) :: c.chain } | _ => r
+def IR.withEnd (r : IR) (e : Int) : IR := { r with stop := e }
+def IR.updFirstEnd (r : IR) (pstart : Int) (e : Int) : IR :=
+  match r.chain with
+  | (cs, ce, cd) :: rest => if cs == pstart then { r with chain := (cs, e, cd) :: rest } else { r with chain := (cs, ce, cd) :: rest }
+  | [] => r
+
+def chainStep (src : Array Ch) (acc : List (Int × Int)) (c : IRng) : List (Int × Int) :=
+  let a1 := pushR acc (c.1, c.2.1)
+  match innerRange src (c.2.2 + 1) (c.2.1 - 1) with | some i => pushR a1 i | none => a1
+def chainI (src : Array Ch) (chain : List IRng) (acc : List (Int × Int)) : List (Int × Int) := chain.foldl (chainStep src) acc
 
 def inwardLoop (src : Array Ch) (pos : Int) : List Ev → List IR → Option IR → List (Int × Int)
   | [], _, _ => []
@@ -104,33 +117,30 @@ def inwardLoop (src : Array Ch) (pos : Int) : List Ev → List IR → Option IR 
       match stack with
       | [] => inwardLoop src pos evs [] none
       | r :: rest =>
-        match r with
-        | .mk rs _ rd rf =>
-          if rs ≤ pos && pos ≤ ev.stop then
-            let a1 := pushR [] (rs, ev.stop)
-            let a2 := match innerRange src (rd + 1) ev.start with | some i => pushR a1 i | none => a1
-            (chainI src (evs.length + stack.length + 1000) rf a2).reverse
-          else
-            match rest with
-            | parent :: rest' => inwardLoop src pos evs (parent.setFirstIfNone (r.withEnd ev.stop) :: rest') none
-            | [] => inwardLoop src pos evs [] none
+        if r.start ≤ pos && pos ≤ ev.stop then
+          let a1 := pushR [] (r.start, ev.stop)
+          let a2 := match innerRange src (r.delimiter + 1) ev.start with | some i => pushR a1 i | none => a1
+          (chainI src r.chain a2).reverse
+        else
+          match rest with
+          | parent :: rest' => inwardLoop src pos evs (parent.setFirstIfNone (r.withEnd ev.stop) :: rest') none
+          | [] => inwardLoop src pos evs [] none
     | .propertyName =>
-      let p := IR.mk ev.start ev.stop ev.delimiter none
+      let p : IR := { start := ev.start, stop := ev.stop, delimiter := ev.delimiter }
       match stack with
       | parent :: rest => inwardLoop src pos evs (parent.setFirstIfNone p :: rest) (some p)
       | [] => inwardLoop src pos evs [] (some p)
     | .propertyValue =>
       match pending with
-      | some (.mk ps _ _ _) =>
-        if ps ≤ pos && pos ≤ ev.stop then
-          (pushR (pushR [] (ps, ev.delimiter + 1)) (ev.start, ev.stop)).reverse
+      | some p =>
+        if p.start ≤ pos && pos ≤ ev.stop then
+          (pushR (pushR [] (p.start, propEnd ev)) (ev.start, ev.stop)).reverse
         else
           match stack with
-          | parent :: rest =>
-            inwardLoop src pos evs (parent.updFirstEnd ps (if ev.delimiter != -1 then ev.delimiter + 1 else ev.stop) :: rest) none
+          | parent :: rest => inwardLoop src pos evs (parent.updFirstEnd p.start (propEnd ev) :: rest) none
           | [] => inwardLoop src pos evs [] none
       | none => inwardLoop src pos evs stack none
-    | .selector => inwardLoop src pos evs (.mk ev.start ev.stop ev.delimiter none :: stack) none
+    | .selector => inwardLoop src pos evs ({ start := ev.start, stop := ev.stop, delimiter := ev.delimiter } :: stack) none
 
 /-- `split_value(value)` -/
 def isOp (ch : Ch) : Bool := ch == 43 || ch == 47 || ch == 42 || ch == 44
